@@ -47,6 +47,9 @@ func init() {
 			for _, sym := range ammTokens {
 				nat := new(big.Int).Add(rng.Amount(95), pow18)
 				ext := rng.Amount(95)
+				if rng.Chance(1, 4) { // the far end of the property's depth range (1 .. 10^33)
+					ext = new(big.Int).Mul(rng.Amount(40), new(big.Int).Exp(big.NewInt(10), big.NewInt(int64(18+rng.Intn(4))), nil))
+				}
 				if ext.Sign() == 0 {
 					ext = big.NewInt(1)
 				}
@@ -147,7 +150,19 @@ func init() {
 					}
 					s0 := w.snap(sym)
 					var nAmt, eAmt *big.Int
-					switch rng.Intn(4) {
+					switch rng.Intn(6) {
+					case 4, 5: // slightly asymmetric: one side short of the pool ratio by 10^-3 .. 10^-8 relative
+						nAmt = w.frac(s0.R)
+						eAmt = new(big.Int).Mul(nAmt, s0.A)
+						if s0.R.Sign() > 0 {
+							eAmt.Quo(eAmt, s0.R)
+						}
+						k := new(big.Int).Exp(big.NewInt(10), big.NewInt(int64(3+rng.Intn(6))), nil)
+						if rng.Bool() {
+							eAmt.Sub(eAmt, new(big.Int).Quo(eAmt, k))
+						} else {
+							nAmt.Sub(nAmt, new(big.Int).Quo(nAmt, k))
+						}
 					case 0:
 						nAmt, eAmt = w.frac(s0.R), big.NewInt(0)
 					case 1:
